@@ -13,10 +13,12 @@ Rec == ndJsonDeserialize(IOEnv.TRACE)
 VARIABLE l
 Init == l = 1
 ParseOK(e) ==
-   IF ~e.ok THEN TRUE ELSE
+   IF ~e.ok THEN TRUE
+   ELSE IF e.huge THEN e.reparse_ok /\ e.reparse_same     \* numbers beyond TLC's integers: only totality and the round trip
+   ELSE
    /\ IsDSym(e.sym)                            \* valid symbol (v = 0 allowed: undefined degree)
-   /\ e.reparse_ok /\ e.reparse_sym = e.sym    \* printing the parsed symbol parses to the same symbol
-ParseConf(e) == ("exp_ok" \in DOMAIN e) => (e.ok = e.exp_ok /\ (e.ok => e.sym = e.exp_sym))
+   /\ e.reparse_ok /\ e.reparse_same /\ e.reparse_sym = e.sym    \* printing the parsed symbol parses to the same symbol
+ParseConf(e) == ("exp_ok" \in DOMAIN e) => (e.ok = e.exp_ok /\ ((e.ok /\ ~e.huge) => e.sym = e.exp_sym))
 RoundTripOK(e) == /\ CompleteSym(e.sym) /\ e.ok /\ e.back = e.sym
 Next == /\ l <= Len(Rec)
         /\ (LET e == Rec[l] IN
